@@ -1011,6 +1011,10 @@ def gen_message(rng, kind=None, big=False, min_sets=None, allow_case_mix=True, w
     odd = rng.random() < 0.25
     m.case_mix = case_mix
     origin = None
+    if case_mix:
+        # relativizing against an origin replaces the spelling of the origin's labels; keep
+        # case-mixed pools absolute so that every octet difference is the renderer's doing
+        use_origin = False
     if kind == "update":
         use_origin = True
     case_map = make_case_map(rng)
@@ -1023,7 +1027,7 @@ def gen_message(rng, kind=None, big=False, min_sets=None, allow_case_mix=True, w
     m.origin = origin
     # abs_only: every name handed to the library is absolute (the "equal to the original"
     # clause applies); otherwise a share of owner and rdata names is relative to origin
-    m.abs_only = origin is None or (kind == "update" and rng.random() < 0.4)
+    m.abs_only = origin is None or case_mix or (kind == "update" and rng.random() < 0.4)
     pool = NamePool(rng, origin, case_mix, odd, relative_ok=not m.abs_only, case_map=case_map)
     # header
     flagbits = 0
